@@ -1,5 +1,5 @@
-import CardVerif.Spec.Symmetry
-import CardVerif.Model.Misc
+import CardModel.Spec.Symmetry
+import CardModel.Model.Misc
 import CardVerif.Props.C08
 import CardVerif.Proofs.SymGin
 /-!
